@@ -151,6 +151,9 @@ def main(c):
                     jobs.append((os.path.join(kd, fn), os.path.join(kd, fn[:-8] + '.tdmp')))
         # the pure-Python reader decodes about 1-2 MB/s per core: files above 4 MiB are validated up to a budget of 3 GiB per run
         # (smallest first within that class, so that every kind of large table is seen), the rest are counted as not validated
+        # the two 16 MiB single-literal pages are 16.7 million one-byte values: minutes and gigabytes in pure Python; carquet's own round trip (C01) covers them
+        heavy = [j for j in jobs if 'literal of 167772' in open(j[0][:-8] + '.meta').read()]
+        c.count('single_16MiB_literal_files_left_to_C01', len(heavy)); jobs = [j for j in jobs if j not in heavy]
         small = [j for j in jobs if os.path.getsize(j[0]) <= (4 << 20)]
         large = sorted((j for j in jobs if os.path.getsize(j[0]) > (4 << 20)), key=lambda j: os.path.getsize(j[0]))
         budget = 3 << 30; taken = []
